@@ -11,12 +11,12 @@ structure St where
 
 def showRes : Res → String
   | .ok => "ok" | .dupErr => "dupErr" | .typeErr => "typeErr" | .connErr => "connErr"
-  | .valueErr => "valueErr" | .refused => "refused"
+  | .valueErr => "valueErr" | .refused => "refused" | .keyErr => "keyErr" | .kvDupErr => "kvDupErr"
 
 def nameOf (s : St) (c : Nat) : String := (s.names.lookup c).getD "?"
 
-def showPanel (s : St) (side : Side) : String :=
-  match s.w.panel side with
+def showPanel (s : St) (side : Side) (readOk : Bool) : String :=
+  match (if readOk then s.w.panel side else none) with
   | none => "ERR"
   | some p => "[" ++ ",".intercalate (p.map fun e => s!"{e.1}={nameOf s e.2}#{e.2}") ++ "]"
 
@@ -25,13 +25,21 @@ def showMap : Option KeyMap → String
   | some m => "{" ++ ",".intercalate (m.map fun e =>
       match e.2 with
       | .name n => s!"{e.1}>{n}"
-      | .disabled k => s!"{e.1}>-{k}") ++ "}"
+      | .disabled k => s!"{e.1}>-{k}"
+      | .rawNone => s!"{e.1}>!None") ++ "}"
 
 def showVals (s : St) : String :=
   ",".intercalate ((s.names.mergeSort (fun a b => a.1 ≤ b.1)).map fun e => s!"{e.1}={s.w.val e.1}")
 
-def obs (s : St) : String :=
-  s!"in:{showPanel s .inputs} out:{showPanel s .outputs} imap:{showMap s.w.imap} omap:{showMap s.w.omap} vals:{showVals s}"
+/-- what the harness does after every operation: it reads `wf.inputs`, `wf.outputs` (each calls
+the getter of its map, which cleans the stored object in place) and then both maps -/
+def settle (s : St) : St × Bool × Bool :=
+  let r1 := step s.w (.read .inputs)
+  let r2 := step r1.1 (.read .outputs)
+  ({ s with w := r2.1 }, decide (r1.2 = .ok), decide (r2.2 = .ok))
+
+def obsOf (s : St) (fl : Bool × Bool) : String :=
+  s!"in:{showPanel s .inputs fl.1} out:{showPanel s .outputs fl.2} imap:{showMap s.w.imap} omap:{showMap s.w.omap} vals:{showVals s}"
 
 def showRet (s : St) : String :=
   match runReturn s.w with
@@ -76,6 +84,59 @@ def parseMap (ws : List String) : Option (Option UserMap) :=
     | some m => if (m.map Prod.fst).eraseDups.length = m.length then some (some m) else none
     | none => none
   | _ => none
+
+/-- `dict k>v …` / `bidict k>v …` / `none` → the operation on one side -/
+def mapOp (side : Side) (ws : List String) : Option Op :=
+  match ws with
+  | "bidict" :: es =>
+    match es.mapM parseEntry with
+    | some m => if (m.map Prod.fst).eraseDups.length = m.length then some (.setMapB side m) else none
+    | none => none
+  | _ => (parseMap ws).map fun m => .setMap side m
+
+def optStr (v : String) : Option String := if v = "-" then none else some v
+
+/-- one token of a `medit` line -/
+inductive Tok | edit (e : Edit) | access
+
+def parseTok (w : String) : Option Tok :=
+  match w.splitOn ":" with
+  | ["clear"] => some (.edit .clear)
+  | ["popitem"] => some (.edit .popitem)
+  | ["access"] => some .access
+  | ["set", kv] => (parseEntry kv).map fun e => .edit (.put e.1 e.2)
+  | ["setdefault", kv] => (parseEntry kv).map fun e => .edit (.setdefault e.1 e.2)
+  | ["force", kv] => (parseEntry kv).map fun e => .edit (.force e.1 e.2)
+  | ["del", k] => if k = "" then none else some (.edit (.del k))
+  | ["pop", k] => if k = "" then none else some (.edit (.pop k))
+  | ["popd", k] => if k = "" then none else some (.edit (.popd k))
+  | ["invdel", v] => if v = "" then none else some (.edit (.invDel (optStr v)))
+  | ["invset", vk] =>
+    match vk.splitOn ">" with
+    | [v, k] => if k = "" || v = "" then none else some (.edit (.invPut (optStr v) k))
+    | _ => none
+  | ["upd", kvs] =>
+    let es := if kvs = "" then [] else kvs.splitOn ","
+    match es.mapM parseEntry with
+    | some m => if (m.map Prod.fst).eraseDups.length = m.length then some (.edit (.update m)) else none
+    | none => none
+  | _ => none
+
+/-- a batch of in-place edits, as a script would run it: `getter` = every edit goes through the
+property again (`wf.inputs_map[k] = v`), `held` = the reference is taken once (`m = wf.inputs_map`)
+and edited; the first exception ends the batch. `access` reads the panel of that side. -/
+def medit (w : W) (side : Side) (everyTime : Bool) : List Tok → Nat → W × String
+  | [], _ => (w, "ok")
+  | t :: rest, i =>
+    let pre := match t with
+      | .access => step w (.read side)
+      | .edit _ => if everyTime then step w (.read side) else (w, .ok)
+    if pre.2 ≠ .ok then (pre.1, s!"{showRes pre.2}@{i}") else
+    match t with
+    | .access => medit pre.1 side everyTime rest (i + 1)
+    | .edit e =>
+      let r := step pre.1 (.edit side e)
+      if r.2 ≠ .ok then (r.1, s!"{showRes r.2}@{i}") else medit r.1 side everyTime rest (i + 1)
 
 def splitAt (ws : List String) (sep : String) : List String × List String :=
   (ws.takeWhile (· ≠ sep), (ws.dropWhile (· ≠ sep)).drop 1)
@@ -132,8 +193,27 @@ def exec (s : St) (ws : List String) : Option (St × String) :=
     match a.toNat? with
     | some a => fin (step s.w (.disconnectAll a))
     | none => none
-  | "imap" :: rest => (parseMap rest).bind fun m => fin (step s.w (.setMap .inputs m))
-  | "omap" :: rest => (parseMap rest).bind fun m => fin (step s.w (.setMap .outputs m))
+  | "imap" :: rest => (mapOp .inputs rest).bind fun o => fin (step s.w o)
+  | "omap" :: rest => (mapOp .outputs rest).bind fun o => fin (step s.w o)
+  | "bothmap" :: rest =>
+    -- the SAME object assigned to `inputs_map` and then to `outputs_map`
+    match mapOp .inputs rest, mapOp .outputs rest with
+    | some oi, some oo =>
+      let r1 := step s.w oi
+      if r1.2 ≠ .ok then fin r1 else fin (step r1.1 oo)
+    | _, _ => none
+  | "medit" :: side :: mode :: toks =>
+    match parseSide side, toks.mapM parseTok with
+    | some side, some toks =>
+      if mode = "getter" || mode = "held" then
+        -- `m = wf.inputs_map`: the getter runs once in any case
+        let r0 := step s.w (.read side)
+        if r0.2 ≠ .ok then some ({ s with w := r0.1 }, s!"{showRes r0.2}@0") else
+        let r := medit r0.1 side (mode = "getter") toks 0
+        some ({ s with w := r.1 }, r.2)
+      else none
+    | _, _ => none
+  | ["noop"] => some (s, "ok")
   | ["assign", side, k, v] =>
     match parseSide side with
     | some side => fin (step s.w (.assign side k v))
@@ -165,20 +245,21 @@ def step' (s : St) (ws : List String) : St × List String :=
     match exec s rest with
     | some (s', _) => (s', [])
     | none => (s, ["bad-op"])
-  | ["sync"] => (s, ["sync " ++ obs s])
+  | ["sync"] => let (s1, fl) := settle s; (s1, ["sync " ++ obsOf s1 fl])
   | ["run", status] =>
     -- `status` is what the harness saw of the run proper (C01's subject); the panel and
     -- keyword failures are the model's own
-    let s0 := { s with kw := .ok }
-    if s.kw ≠ .ok then (s0, [s!"exc:{showRes s.kw} {obs s0}"])
-    else if (s.w.panel .inputs).isNone then (s0, [s!"exc:typeErr {obs s0}"])
-    else if status.startsWith "exc:" then (s0, [s!"{status} {obs s0}"])
+    let (s1, fl) := settle { s with kw := .ok }
+    let obs := obsOf s1 fl
+    if s.kw ≠ .ok then (s1, [s!"exc:{showRes s.kw} {obs}"])
+    else if (s1.w.panel .inputs).isNone then (s1, [s!"exc:typeErr {obs}"])
+    else if status.startsWith "exc:" then (s1, [s!"{status} {obs}"])
     else if status ≠ "ok" then (s, ["bad-op"])
-    else if (s.w.panel .outputs).isNone then (s0, [s!"exc:typeErr {obs s0}"])
-    else (s0, [s!"ok ret:{showRet s0} {obs s0}"])
+    else if (s1.w.panel .outputs).isNone then (s1, [s!"exc:typeErr {obs}"])
+    else (s1, [s!"ok ret:{showRet s1} {obs}"])
   | _ =>
     match exec s ws with
-    | some (s', r) => (s', [s!"{r} {obs s'}"])
+    | some (s', r) => let (s1, fl) := settle s'; (s1, [s!"{r} {obsOf s1 fl}"])
     | none => (s, ["bad-op"])
 
 def main : IO Unit := Proto.run init step'
